@@ -40,14 +40,11 @@ def listener_pipeline(res, tier, clauses, pid):
                                stdout=subprocess.PIPE, stderr=ef, text=True, timeout=3000)
         if p.returncode != 0:
             errtxt = open(errf).read()
-            first = errtxt.split("\n\ngoroutine ")
-            first_block = first[0] + (first[1] if len(first) > 1 else "")
-            m = re.search(r"^panic: (.*)$", errtxt, re.M)
-            if m and "github.com/mholt/caddy-l4/" in first_block:
-                # a panic in a goroutine of the code under test kills the whole server process
-                site = re.search(r"/(layer4/[\w.]+\.go:\d+)", first_block)
-                res.violation("listener:crash:" + re.sub(r"\W+", "-", m.group(1))[:40],
-                              f"L0 the listener wrapper crashed the process: panic: {m.group(1)} at {site.group(1) if site else '?'}", dict(stderr=errtxt[-3000:]))
+            rc = repo_crash(errtxt)
+            if rc:
+                # a panic / fatal runtime error in a goroutine of the code under test kills the whole server process
+                res.violation("listener:crash:" + re.sub(r"\W+", "-", rc[0])[:40],
+                              f"L0 the listener wrapper crashed the process: {rc[0]} at {rc[1]}", dict(stderr=errtxt[-3000:]))
                 return
             raise Inconclusive(f"listener-run failed rc={p.returncode}: {p.stdout[-1500:]} " + errtxt[-1500:])
         s = json.load(open(summ))
